@@ -13,4 +13,8 @@ LABELS = ["input_unchanged", "kind_preserved"]
 def templates(tier, seed):
     import tmpl_pl
 
-    return [Template(tid, tmpl.pick(fn, LABELS), args) for tid, fn, args in tmpl.standard_cases(tier) + tmpl_pl.standard_cases(tier)]
+    ts = [Template(tid, tmpl.pick(fn, LABELS), args) for tid, fn, args in tmpl.standard_cases(tier) + tmpl_pl.standard_cases(tier)]
+    # polars: head/tail/sample do not change what is returned (the whole input, in the container kind it came in)
+    ts += [Template(tid, tmpl.pick(fn, ["kind_preserved", "subsample/input_unchanged", "subsample/returns_whole_object"]), args)
+           for tid, fn, args in tmpl_pl.subsample_cases(tier) if "/N=2" in tid]
+    return ts
